@@ -194,7 +194,7 @@ theorem driver_step_g {file : Bytes} {crs ncols : Nat} {im : List Nat} {hrow : L
         shape := shape_zeros2 hres.shape
         zero := fun c hc => zeros_first c hc
         imps := rfl
-        win := Or.inr ⟨rfl, he'pos, rfl, hnp⟩
+        win := Or.inr ⟨rfl, he'pos, rfl, hnp, hlt⟩
         inwin := hbe' }
     · show mu rows ncols s.offs q (maxrow * Gen.Csv.LARGER_FACTOR) < mu rows ncols s.offs q maxrow
       unfold mu
@@ -249,7 +249,7 @@ theorem driver_step_g {file : Bytes} {crs ncols : Nat} {im : List Nat} {hrow : L
             rw [offAt_last offs' ncols hlen']; simp
         zero := hzero'
         imps := rfl
-        win := Or.inr ⟨rfl, he'pos, rfl, hnp⟩
+        win := Or.inr ⟨rfl, he'pos, rfl, hnp, hlt⟩
         inwin := hbe' }
     · show mu rows ncols offs' q maxrow < mu rows ncols s.offs q maxrow
       unfold mu
